@@ -1,5 +1,236 @@
-import RSVerif.Basic
-/- C07: line-protocol driver (stub) -/
+import RSVerif.Model.ParallelRestore
+/-
+Line protocol for C07 (cases of go/harness/c07.go).
+
+  `<case>`                     → what the model predicts from the case alone: `expect res=<ok|err> cmds=<n>`
+  `<case> @@ <result line>`    → trace validation: is the recorded run (global command log of the fake target + result
+                                 of the real `syncRDBFile` / `restoreRDBFile`) a behaviour the proved model allows?
+                                 `accept` | `reject:<check>:<detail>`
+
+The recorded commands are replayed through `Spec.MiniRedisC07.Server` (per-connection SELECT state), which yields the
+server-side log the theorems of `Properties/C07.lean` speak about; the checks are the decidable statements of those theorems:
+  result   error_reported / failure_is_real           (res = err ⇔ some command was answered with an error)
+  conn     every command came over one of the P worker connections
+  db       lands_in_route / conn_db_invariant         (every command is a command of a passing entry, run in `route cfg e.DB`)
+  atmost   no command executed more often than `expected` asks for
+  order    each connection's log is the concatenation, in queue order, of complete `restoreCmds` blocks of entries it took
+           (the last block may stop at the command that failed)
+  once     each_once                                   (multiset executed = `expected`; in failing sync runs with surviving
+                                                        workers: everything except the failing keys)
+  value    value_equality (holds for `parallel = 1 ∨ ¬chunked` — otherwise finding D12)
+-/
 namespace RSVerif.Drive.C07
-def handle (_line : String) : String := "unimplemented"
+open RSVerif RSVerif.Spec.MiniRedisC07 RSVerif.Model.ParallelRestore
+
+structure Flags where
+  fdb : Bool
+  fkey : Bool
+  fslot : Bool
+
+structure Case where
+  chunk : Bool
+  mode : Mode
+  p : Nat
+  tdb : Option Nat
+  rewrite : Bool
+  filterLua : Bool
+  failKey : Option Bytes
+  entries : List (Entry × Flags)
+
+def lookup (kv : List (String × String)) (k : String) : Option String :=
+  (kv.find? fun p => p.1 == k).map (·.2)
+
+def parseKV (toks : List String) : List (String × String) :=
+  toks.filterMap fun t =>
+    match t.splitOn "=" with
+    | [k, v] => some (k, v)
+    | _ => none
+
+def parseFields (s : String) : Option (List Bytes) :=
+  if s == "-" then some [] else (s.splitOn ",").mapM ofHex
+
+def parseEntry (s : String) : Option (Entry × Flags) :=
+  match s.splitOn ":" with
+  | [db, key, kind, exp, fl, fs] => do
+    let db ← db.toNat?
+    let key ← ofHex key
+    let kind ← kind.toNat?
+    let body ← parseFields fs
+    let f := fl.toList
+    let bit (i : Nat) : Bool := f.getD i '0' == '1'
+    pure ({ db := db, key := key, kind := kind, expire := exp == "1", body := body },
+          { fdb := bit 0, fkey := bit 1, fslot := bit 2 })
+  | _ => none
+
+def parseEntries (s : String) : Option (List (Entry × Flags)) :=
+  if s == "-" then some [] else (s.splitOn ";").mapM parseEntry
+
+def parseCase (line : String) : Option Case :=
+  match line.splitOn " " with
+  | kind :: mode :: rest => do
+    let kv := parseKV rest
+    let p ← (← lookup kv "P").toNat?
+    let tdbS ← lookup kv "tdb"
+    let tdb : Option Nat := if tdbS == "-1" then none else tdbS.toNat?
+    let kx ← lookup kv "kx"
+    let lua ← lookup kv "lua"
+    let fail ← lookup kv "fail"
+    let failKey ← (if fail == "-" then some none else (ofHex fail).map some)
+    let es ← parseEntries (← lookup kv "E")
+    let mode ← (if mode == "sync" then some Mode.sync else if mode == "restore" then some Mode.restoreFixed else none)
+    if kind != "trace" && kind != "chunk" then none
+    pure { chunk := kind == "chunk", mode := mode, p := p, tdb := tdb, rewrite := kx == "rewrite", filterLua := lua == "1",
+           failKey := failKey, entries := es }
+  | _ => none
+
+/-- the filter predicates of the case: fixed per database / per key by construction of the generator's filter lists -/
+def Case.cfg (c : Case) : Cfg :=
+  { mode := c.mode
+    targetDB := c.tdb
+    filterDB := fun d => c.entries.any fun (e, f) => e.db == d && f.fdb
+    filterKey := fun k => c.entries.any fun (e, f) => e.key == k && f.fkey
+    filterSlot := fun k => c.entries.any fun (e, f) => e.key == k && f.fslot
+    restoreCmds := concreteCmds c.rewrite c.filterLua }
+
+def Case.ents (c : Case) : List Entry := c.entries.map (·.1)
+
+/-- the RESTORE of this entry is answered with an error by the fake target -/
+def Case.fails (c : Case) (e : Entry) : Bool :=
+  e.kind == 0 && c.failKey == some e.key && passes c.cfg e
+
+def luaKey : Bytes := [108, 117, 97]
+
+def cmdName : String → CmdName
+  | "restore" => .restore | "set" => .set | "del" => .del | "exists" => .exists | "hset" => .hset
+  | "rpush" => .rpush | "sadd" => .sadd | "zadd" => .zadd | "pexpire" => .pexpire | "script" => .scriptLoad
+  | _ => .other
+
+inductive Wire
+  | select (conn db : Nat)
+  | data (conn : Nat) (c : DataCmd) (ok : Bool)
+
+def parseItem (s : String) : Option Wire :=
+  match s.splitOn ":" with
+  | [conn, word, key, arg, ok] => do
+    let conn ← conn.toNat?
+    if word == "select" then
+      let db ← key.toNat?
+      pure (.select conn db)
+    else
+      let key ← ofHex key
+      let arg ← ofHex arg
+      let name := cmdName word
+      let key := if name == .scriptLoad then luaKey else key
+      pure (.data conn { name := name, key := key, arg := arg } (ok == "1"))
+  | _ => none
+
+def parseTrace (s : String) : Option (List Wire) :=
+  if s == "-" then some [] else (s.splitOn ",").mapM parseItem
+
+/-- the target's view of the run: SELECT state per connection, data commands logged with the database they ran in -/
+def replay (ws : List Wire) : Server :=
+  ws.foldl (fun s w => match w with
+    | .select c d => s.select c d
+    | .data c x ok => s.exec c x ok) {}
+
+def countP (p : Nat × DataCmd) (l : List (Nat × DataCmd)) : Nat := l.count p
+
+/-- does `l` (one connection's log) decompose into blocks of entries of `ents`, in order? -/
+def matchConn (cfg : Cfg) : List Entry → List (Nat × DataCmd × Bool) → Bool
+  | _, [] => true
+  | [], _ :: _ => false
+  | e :: es, l@((d, c, _) :: _) =>
+    if !passes cfg e then matchConn cfg es l
+    else
+      match tagged cfg e with
+      | [] => matchConn cfg es l
+      | t :: ts =>
+        if t != (d, c) then matchConn cfg es l
+        else
+          -- consume the block t :: ts
+          let rec eat : List (Nat × DataCmd) → List (Nat × DataCmd × Bool) → Option (List (Nat × DataCmd × Bool))
+            | [], rest => some rest
+            | _ :: _, [] => none                       -- the connection stopped in the middle of an entry without an error
+            | b :: bs, (d', c', ok) :: rest =>
+              if b != (d', c') then none
+              else if !ok then (if rest.isEmpty then some [] else none)   -- the worker returns after the failure
+              else eat bs rest
+          match eat (t :: ts) l with
+          | none => false
+          | some rest => matchConn cfg es rest
+
+def firstSome {α : Type} (l : List α) (f : α → Option String) : Option String :=
+  l.findSome? f
+
+def showKey (k : Bytes) : String := hexOrDash k
+
+def verdict (c : Case) (res : String) (ws : List Wire) : String :=
+  let cfg := c.cfg
+  let ents := c.ents
+  let srv := replay ws
+  let log := srv.log
+  let failed := log.filter fun x => !x.ok
+  let execd := log.map fun x => (x.db, x.cmd)
+  let exp := expected cfg ents
+  -- result
+  let resOk := res == "ok" || res == "nores"
+  if res != "ok" && res != "nores" && res != "err" then s!"reject:result:{res}"
+  else if failed.isEmpty && !resOk then "reject:result:failure-reported-but-no-command-failed"
+  else if !failed.isEmpty && resOk then "reject:result:a-restore-failed-but-the-run-finished-as-a-success"
+  else
+  match firstSome log (fun x => if x.conn < c.p then none else some s!"reject:conn:{x.conn}") with
+  | some r => r
+  | none =>
+  match firstSome log (fun x =>
+      if ents.any (fun e => passes cfg e && (cfg.restoreCmds e).contains x.cmd && x.db == route cfg e.db) then none
+      else some s!"reject:db:key={showKey x.cmd.key},ran-in-db={x.db},conn={x.conn}") with
+  | some r => r
+  | none =>
+  match firstSome execd (fun p => if countP p execd ≤ countP p exp then none
+      else some s!"reject:atmost:key={showKey p.2.key},db={p.1},times={countP p execd}") with
+  | some r => r
+  | none =>
+  match firstSome (List.range c.p) (fun w =>
+      let l := (log.filter fun x => x.conn == w).map fun x => (x.db, x.cmd, x.ok)
+      if matchConn cfg ents l then none else some s!"reject:order:conn={w}") with
+  | some r => r
+  | none =>
+  let failedKeys := failed.map fun x => x.cmd.key
+  let mustAll := failed.isEmpty || failed.length < c.p
+  match (if mustAll then firstSome exp (fun p =>
+      if failedKeys.contains p.2.key || countP p execd == countP p exp then none
+      else some s!"reject:once:key={showKey p.2.key},db={p.1},times={countP p execd},expected={countP p exp}") else none) with
+  | some r => r
+  | none =>
+  if !failed.isEmpty then "accept"
+  else
+  match firstSome (ents.filter (passes cfg)) (fun e =>
+      if valueAfter log (route cfg e.db) e.key == valueAfter (seqLog cfg ents) (route cfg e.db) e.key then none
+      else some s!"reject:value:key={showKey e.key},db={route cfg e.db}") with
+  | some r => r
+  | none => "accept"
+
+def expectLine (c : Case) : String :=
+  let cfg := c.cfg
+  let anyFail := c.ents.any c.fails
+  s!"expect res={if anyFail then "err" else "ok"} cmds={(expected cfg c.ents).length}"
+
+def handle (line : String) : String :=
+  match line.splitOn " @@ " with
+  | [cl] =>
+    match parseCase cl with
+    | some c => expectLine c
+    | none => "badcase"
+  | [cl, il] =>
+    match parseCase cl, il.splitOn " " with
+    | some c, [r, t] =>
+      if r.startsWith "res=" && t.startsWith "T=" then
+        match parseTrace (t.drop 2).toString with
+        | some ws => verdict c (r.drop 4).toString ws
+        | none => "reject:trace:unparsable"
+      else "reject:trace:unparsable"
+    | some _, _ => "reject:trace:unparsable"
+    | none, _ => "badcase"
+  | _ => "badcase"
+
 end RSVerif.Drive.C07
